@@ -241,11 +241,10 @@ inductive TokErr
   | lex          -- the real lexer reports a syntax error here (or the parser: unterminated raw)
   | unsupported  -- outside the modelled class
   | fuel
-  | internal     -- the tokenizer broke its own invariant `WF` (never observed; the harness treats it as a break)
   deriving DecidableEq, Repr
 
 def TokErr.name : TokErr → String
-  | .lex => "lex" | .unsupported => "unsupported" | .fuel => "fuel" | .internal => "internal"
+  | .lex => "lex" | .unsupported => "unsupported" | .fuel => "fuel"
 
 /-! what every token list of the real lexer satisfies at this level of detail: a text token is
 never empty, two text tokens are never adjacent (URL tokens aside, see the header), the loop
@@ -451,90 +450,105 @@ def LSt.emit (st : LSt) (t : NT) : LSt := { st.flush with out := .nt t :: st.flu
 
 def cdataStart : Bytes := [60, 33, 91, 67, 68, 65, 84, 65, 91]  -- <![CDATA[
 
+/-- one iteration of the loop of `scan`: an error, or the next state and what is left -/
+inductive Step
+  | err (e : TokErr)
+  | next (st : LSt) (rest : Bytes)
+
+/-- Markdown `\`: the next character, unless LF or `h`, is not looked at -/
+def stepBackslash (st : LSt) (c : UInt8) (rest : Bytes) : Step :=
+  match rest with
+  | d :: rest' =>
+    if d != 10 && d != 104 then
+      (if d ≥ 128 then .err .unsupported else .next { st with acc := d :: c :: st.acc } rest')
+    else .next { st with acc := c :: st.acc } rest
+  | [] => .next { st with acc := c :: st.acc } rest
+
+/-- `{{ … }}`; `inner` is the source after the `{{` -/
+def stepShow (f : Format) (st : LSt) (inner : Bytes) : Step :=
+  match findSub [125, 125] inner with
+  | none => .err .lex
+  | some i =>
+    match classifyShow f (words (inner.take i)) with
+    | none => .err .unsupported
+    | some o => .next (st.emit ⟨false, false, o, nlCount (inner.take i), 2, i + 4⟩) (inner.drop (i + 2))
+
+/-- `{%% … %%}`; `inner` is the source after the `{%%` -/
+def stepStmts (st : LSt) (inner : Bytes) : Step :=
+  match findSub [37, 37, 125] inner with
+  | none => .err .lex
+  | some i =>
+    match classifyStmts (words (inner.take i)) with
+    | none => .err .unsupported
+    | some cut => .next (st.emit ⟨false, cut, [], nlCount (inner.take i), 3, i + 6⟩) (inner.drop (i + 3))
+
+/-- after a `raw` statement the content is pending text that is not looked at
+(`p = l.skipRawContent()`); `after` is the source after the statement -/
+def stepRaw (st : LSt) (marker after : Bytes) : Step :=
+  match endRawIndex marker after 0 with
+  | .error e => .err e
+  | .ok none => .err .lex
+  | .ok (some k) => .next { st with acc := (after.take k).reverse } (after.drop k)
+
+/-- `{% … %}`; `inner` is the source after the `{%` -/
+def stepStmt (st : LSt) (inner : Bytes) : Step :=
+  match findSub [37, 125] inner with
+  | none => .err .lex
+  | some i =>
+    match classifyStmt (words (inner.take i)) with
+    | none => .err .unsupported
+    | some (.plain cut) =>
+      .next (st.emit ⟨false, cut, [], nlCount (inner.take i), 2, i + 4⟩) (inner.drop (i + 2))
+    | some (.rawStart marker) =>
+      stepRaw (st.emit ⟨false, true, [], nlCount (inner.take i), 2, i + 4⟩) marker (inner.drop (i + 2))
+
+/-- `{# … #}`; `src` starts with the `{#` -/
+def stepComment (st : LSt) (src : Bytes) : Step :=
+  match commentLen src src.length 2 0 with
+  | none => .err .lex
+  | some n => .next (st.emit ⟨true, true, [], nlCount (src.take n), n, n⟩) (src.drop n)
+
+/-- `if p < len(l.src) && l.src[p] == '\r' { p++ }`: the CR taken and what is left -/
+def skipCR : Bytes → Bytes × Bytes
+  | 13 :: r => ([13], r)
+  | rest => ([], rest)
+
+/-- `p, l.ctx = l.scanCodeBlock(p)` -/
+def enterCodeBlock (st : LSt) (rest : Bytes) : Step :=
+  .next { st with ctx := (scanCodeBlock rest).2, acc := (rest.take (scanCodeBlock rest).1).reverse ++ st.acc }
+    (rest.drop (scanCodeBlock rest).1)
+
+/-- a LF: a following CR is skipped, then the Markdown code-block check -/
+def stepNewline (st : LSt) (rest : Bytes) : Step :=
+  match st.ctx with
+  | .off => .next { st with acc := (skipCR rest).1 ++ (10 :: st.acc) } (skipCR rest).2
+  | .md =>
+    if st.spacesOnly then enterCodeBlock { st with acc := (skipCR rest).1 ++ (10 :: st.acc) } (skipCR rest).2
+    else .next { st with acc := (skipCR rest).1 ++ (10 :: st.acc), spacesOnly := true } (skipCR rest).2
+  | _ => enterCodeBlock { st with acc := (skipCR rest).1 ++ (10 :: st.acc) } (skipCR rest).2
+
+def scanStep (f : Format) (st : LSt) (c : UInt8) (rest : Bytes) : Step :=
+  let st := if st.ctx == .md then { st with spacesOnly := st.spacesOnly && isSpace c } else st
+  if c == 92 && f == .markdown && st.sawLt then .err .unsupported
+  else if c == 92 && st.ctx == .md then stepBackslash st c rest
+  else if c == 123 && rest.head? == some 123 then stepShow f st (rest.drop 1)
+  else if c == 123 && rest.head? == some 37 then
+    (if (rest.drop 1).head? == some 37 then stepStmts st (rest.drop 2) else stepStmt st (rest.drop 1))
+  else if c == 123 && rest.head? == some 35 then stepComment st (c :: rest)
+  else if c == 35 && rest.head? == some 125 then .err .lex  -- unexpected #}
+  else if f == .html && cdataStart.isPrefixOf (c :: rest) then .err .unsupported
+  else
+    let st := if c == 60 then { st with sawLt := true } else st
+    if c == 10 then stepNewline st rest else .next { st with acc := c :: st.acc } rest
+
 /-- the template branch of `scan`; `fuel` ≥ number of bytes left + 1 -/
 def scan (f : Format) : Nat → LSt → Bytes → Except TokErr (List Raw)
   | 0, _, _ => .error .fuel
   | _ + 1, st, [] => .ok st.flush.out.reverse
   | fuel + 1, st, c :: rest =>
-    let st := if st.ctx == .md then { st with spacesOnly := st.spacesOnly && isSpace c } else st
-    if c == 92 && f == .markdown && st.sawLt then .error .unsupported
-    else if c == 92 && st.ctx == .md then
-      -- `\`: the next character, unless LF or `h`, is not looked at
-      match rest with
-      | d :: rest' =>
-        if d != 10 && d != 104 then
-          (if d ≥ 128 then .error .unsupported
-           else scan f fuel { st with acc := d :: c :: st.acc } rest')
-        else scan f fuel { st with acc := c :: st.acc } rest
-      | [] => scan f fuel { st with acc := c :: st.acc } rest
-    else if c == 123 && rest.head? == some 123 then
-      -- {{ … }}
-      let inner := rest.drop 1
-      match findSub [125, 125] inner with
-      | none => .error .lex
-      | some i =>
-        match classifyShow f (words (inner.take i)) with
-        | none => .error .unsupported
-        | some o =>
-          scan f fuel (st.emit ⟨false, false, o, nlCount (inner.take i), 2, i + 4⟩) (inner.drop (i + 2))
-    else if c == 123 && rest.head? == some 37 then
-      if (rest.drop 1).head? == some 37 then
-        -- {%% … %%}
-        let inner := rest.drop 2
-        match findSub [37, 37, 125] inner with
-        | none => .error .lex
-        | some i =>
-          match classifyStmts (words (inner.take i)) with
-          | none => .error .unsupported
-          | some cut =>
-            scan f fuel (st.emit ⟨false, cut, [], nlCount (inner.take i), 3, i + 6⟩) (inner.drop (i + 3))
-      else
-        -- {% … %}
-        let inner := rest.drop 1
-        match findSub [37, 125] inner with
-        | none => .error .lex
-        | some i =>
-          match classifyStmt (words (inner.take i)) with
-          | none => .error .unsupported
-          | some (.plain cut) =>
-            scan f fuel (st.emit ⟨false, cut, [], nlCount (inner.take i), 2, i + 4⟩) (inner.drop (i + 2))
-          | some (.rawStart marker) =>
-            let after := inner.drop (i + 2)
-            match endRawIndex marker after 0 with
-            | .error e => .error e
-            | .ok none => .error .lex
-            | .ok (some k) =>
-              -- `p = l.skipRawContent()`: the content is pending text, not looked at
-              let st1 := st.emit ⟨false, true, [], nlCount (inner.take i), 2, i + 4⟩
-              scan f fuel { st1 with acc := (after.take k).reverse } (after.drop k)
-    else if c == 123 && rest.head? == some 35 then
-      -- {# … #}
-      match commentLen (c :: rest) (rest.length + 1) 2 0 with
-      | none => .error .lex
-      | some n =>
-        scan f fuel (st.emit ⟨true, true, [], nlCount ((c :: rest).take n), n, n⟩) ((c :: rest).drop n)
-    else if c == 35 && rest.head? == some 125 then .error .lex  -- unexpected #}
-    else if f == .html && cdataStart.isPrefixOf (c :: rest) then .error .unsupported
-    else
-      let st := if c == 60 then { st with sawLt := true } else st
-      if c == 10 then
-        -- newline: a following CR is skipped, then the Markdown code-block check
-        let (pre, rest1) : Bytes × Bytes :=
-          match rest with
-          | 13 :: r => ([13], r)
-          | _ => ([], rest)
-        let st1 := { st with acc := pre ++ (c :: st.acc) }
-        match st1.ctx with
-        | .off => scan f fuel st1 rest1
-        | .md =>
-          if st1.spacesOnly then
-            let (n, ctx) := scanCodeBlock rest1
-            scan f fuel { st1 with ctx := ctx, acc := (rest1.take n).reverse ++ st1.acc } (rest1.drop n)
-          else scan f fuel { st1 with spacesOnly := true } rest1
-        | _ =>
-          let (n, ctx) := scanCodeBlock rest1
-          scan f fuel { st1 with ctx := ctx, acc := (rest1.take n).reverse ++ st1.acc } (rest1.drop n)
-      else scan f fuel { st with acc := c :: st.acc } rest
+    match scanStep f st c rest with
+    | .err e => .error e
+    | .next st' rest' => scan f fuel st' rest'
 
 /-- length of the shebang line: `#!` up to and including the first LF (the whole source when
 there is none) -/
@@ -552,13 +566,8 @@ def scanAll (f : Format) (body : Bytes) : Except TokErr (List Raw) :=
     scan f (body.length + 1) ⟨ctx, true, false, (body.take n).reverse, []⟩ (body.drop n)
   else scan f (body.length + 1) ⟨.off, true, false, [], []⟩ body
 
-/-- the token list, checked against `WF` (the check never fails in practice — `internal` is
-reported as a break by the harness — and makes `WF` available to the theorems without an
-invariant proof over `scan`) -/
-def tokenize (f : Format) (body : Bytes) : Except TokErr (List Raw) :=
-  match scanAll f body with
-  | .error e => .error e
-  | .ok raws => if WF raws then .ok raws else .error .internal
+/-- the token list (`Props/C15.lean` `tokenize_invariant`: it always satisfies `WF`) -/
+def tokenize (f : Format) (body : Bytes) : Except TokErr (List Raw) := scanAll f body
 
 inductive RErr
   | tok (e : TokErr)
